@@ -9,6 +9,7 @@ use super::SdJwtVcClaims;
 use sd_jwt_payload_rework::Disclosure;
 use sd_jwt_payload_rework::Hasher;
 use sd_jwt_payload_rework::KeyBindingJwt;
+use sd_jwt_payload_rework::SdJwt;
 use sd_jwt_payload_rework::SdJwtPresentationBuilder;
 
 /// Builder structure to create an SD-JWT VC presentation.
@@ -22,11 +23,9 @@ pub struct SdJwtVcPresentationBuilder {
 impl SdJwtVcPresentationBuilder {
   /// Prepare a presentation for a given [`SdJwtVc`].
   pub fn new(token: SdJwtVc, hasher: &dyn Hasher) -> Result<Self> {
-    let SdJwtVc {
-      sd_jwt,
-      parsed_claims: vc_claims,
-    } = token;
-    let builder = sd_jwt.into_presentation(hasher).map_err(Error::SdJwt)?;
+    let vc_claims = token.parsed_claims.clone();
+    // The claims have to be put back into the `SdJwt`: the builder looks into them for what can be concealed.
+    let builder = SdJwt::from(token).into_presentation(hasher).map_err(Error::SdJwt)?;
 
     Ok(Self { vc_claims, builder })
   }
@@ -48,7 +47,9 @@ impl SdJwtVcPresentationBuilder {
 
   /// Returns the resulting [`SdJwtVc`] together with all removed disclosures.
   pub fn finish(self) -> Result<(SdJwtVc, Vec<Disclosure>)> {
-    let (sd_jwt, disclosures) = self.builder.finish()?;
+    let (mut sd_jwt, disclosures) = self.builder.finish()?;
+    // As everywhere else, the claims live in `parsed_claims`.
+    std::mem::take(sd_jwt.claims_mut());
     Ok((SdJwtVc::new(sd_jwt, self.vc_claims), disclosures))
   }
 }
